@@ -99,7 +99,8 @@ pub fn judge_name(ty: &str, n: &str, ns_mode: u8) -> Option<Fail> {
                 }
             },
             Out::Err(e) => {
-                let ok = expect_refused && e == "MissingRequiredField(Namespace)";
+                let _ = e;
+                let ok = expect_refused; // refused is what the statement asks for; C05 owns the variant
                 if !ok {
                     return Some(Fail::tagged("refused", format!("{ty}:{path}:{e}"), format!("{path} path refused {ty} name {n:?} (namespace mode {ns_mode}) with {e}")));
                 }
